@@ -296,7 +296,7 @@ func instrumentFile(fset *token.FileSet, af *ast.File, src []byte, pkgVars map[s
 			case *ast.SelectorExpr:
 				if id, ok := v.X.(*ast.Ident); ok && syncName != "" && id.Name == syncName && id.Obj == nil {
 					switch v.Sel.Name {
-					case "Cond", "NewCond", "OnceValue", "OnceValues":
+					case "OnceValue", "OnceValues":
 						note(v.Pos(), "sync."+v.Sel.Name)
 					}
 				}
@@ -317,7 +317,7 @@ func instrumentFile(fset *token.FileSet, af *ast.File, src []byte, pkgVars map[s
 			case *ast.SelectorExpr:
 				if id, ok := v.X.(*ast.Ident); ok && syncName != "" && id.Name == syncName {
 					switch v.Sel.Name {
-					case "Cond":
+					case "OnceValues":
 						note(v.Pos(), "sync."+v.Sel.Name)
 					}
 				}
